@@ -9,6 +9,10 @@ tree(e) -> nested dicts:
    {"op": "struct:<Name>", "named": {field: tree}}
    {"op": "function", "params": [names], "cards": [trees]}
    python str / int / list
+
+A call of one of the library's own constructor helpers (`fn by_key(native: &str) -> Function`, `minmax("std.min_by_key")`)
+is read inline: the helper's body is the tree, its parameters stand for the argument trees of the call; `let` bindings of
+a block stand for their initialisers.
 """
 from .facts import hir_callee, hir_walk
 
@@ -22,68 +26,88 @@ def _vec_elems(e):
     return None
 
 
-def tree(F, e):
+def _inline(F, g, arg_trees, depth):
+    """a call of a crate function that *builds* part of the card program (a private helper such as
+    `fn by_key(native: &str) -> Function`): its body is read as a tree with the parameters standing for the argument
+    trees of this call. None when the helper has no HIR body / does not take plain parameters."""
+    if g is None or not g.hir or g.is_closure or depth > 4:
+        return None
+    params = g.hir.get("params", [])
+    if len(params) != len(arg_trees) or not all(p.get("k") == "bind" and "sub" not in p for p in params):
+        return None
+    return tree(F, g.hir["body"], {p["id"]: a for p, a in zip(params, arg_trees)}, depth + 1)
+
+
+def tree(F, e, env=None, depth=0):
+    """env: HIR local id -> tree (parameters of an inlined helper, `let` bindings of a block)"""
     if e is None:
         return None
     k = e.get("k")
     if k in ("cast", "addr_of", "drop_temps", "use", "paren"):
-        return tree(F, e.get("e"))
+        return tree(F, e.get("e"), env, depth)
     if k == "block":
         bl = e["block"]
-        if not bl["stmts"] and bl.get("expr") is not None:
-            return tree(F, bl["expr"])
+        if bl.get("expr") is not None and all(st["k"] == "let" and st["pat"].get("k") == "bind" and "sub" not in st["pat"]
+                                              and st.get("init") is not None and not st.get("els") for st in bl["stmts"]):
+            # `let name = <tree>; ...; <tail>`: the names stand for their initialisers
+            env = dict(env or {})
+            for st in bl["stmts"]:
+                env[st["pat"]["id"]] = tree(F, st["init"], env, depth)
+            return tree(F, bl["expr"], env, depth)
         return {"op": "?block"}
     if k == "lit":
         return e["lit"].get("v")
     if k == "array":
-        return [tree(F, x) for x in e["elems"]]
+        return [tree(F, x, env, depth) for x in e["elems"]]
     if k == "struct":
         name = e["path"]["res"].get("path", "?").rsplit("::", 1)[-1]
-        return {"op": "struct:" + name, "named": {f["name"]: tree(F, f["e"] if "e" in f else f.get("expr")) for f in e["fields"]}}
+        return {"op": "struct:" + name, "named": {f["name"]: tree(F, f["e"] if "e" in f else f.get("expr"), env, depth) for f in e["fields"]}}
     if k == "path":
         r = e["path"]["res"]
         if r.get("k") == "def" and "CardBody::" in r.get("path", ""):
             return {"op": r["path"].rsplit("::", 1)[-1], "args": [], "named": {}}
         if r.get("k") == "local":
+            if env and r.get("id") in env:
+                return env[r["id"]]
             return {"op": "?local", "name": r.get("name")}
         return {"op": "?path", "path": r.get("path")}
     if k == "mcall":
         names = hir_callee(e)
         nm = e["name"]
         if nm in ("into", "to_string", "to_owned", "clone", "as_str") and not e["args"]:
-            return tree(F, e["recv"])
+            return tree(F, e["recv"], env, depth)
         if any(n.endswith("Function::with_arg") for n in names):
-            f = tree(F, e["recv"])
+            f = tree(F, e["recv"], env, depth)
             if isinstance(f, dict) and f.get("op") == "function":
-                f["params"].append(tree(F, e["args"][0]))
+                f["params"].append(tree(F, e["args"][0], env, depth))
                 return f
         if any(n.endswith("Function::with_cards") for n in names):
-            f = tree(F, e["recv"])
+            f = tree(F, e["recv"], env, depth)
             if isinstance(f, dict) and f.get("op") == "function":
-                cs = tree(F, e["args"][0])
+                cs = tree(F, e["args"][0], env, depth)
                 f["cards"] += cs if isinstance(cs, list) else [cs]
                 return f
         if any(n.endswith("Function::with_card") for n in names):
-            f = tree(F, e["recv"])
+            f = tree(F, e["recv"], env, depth)
             if isinstance(f, dict) and f.get("op") == "function":
-                f["cards"].append(tree(F, e["args"][0]))
+                f["cards"].append(tree(F, e["args"][0], env, depth))
                 return f
         return {"op": "?mcall:" + nm}
     if k == "call":
         names = hir_callee(e)
         if any(n in WRAPPERS or n.endswith("Box::new") for n in names):
-            return tree(F, e["args"][0])
+            return tree(F, e["args"][0], env, depth)
         if any("into_vec" in n or "box_assume_init" in n or n.endswith("vec::from_elem") for n in names):
             el = _vec_elems(e)
-            return [tree(F, x) for x in el] if el is not None else {"op": "?vec"}
+            return [tree(F, x, env, depth) for x in el] if el is not None else {"op": "?vec"}
         if any(n.endswith("Default::default") for n in names) and "Function" in (e.get("ty") or ""):
             return {"op": "function", "params": [], "cards": []}
         for n in names:
             if n.startswith("compiler::card::CardBody::"):
-                return {"op": n.rsplit("::", 1)[-1], "args": [tree(F, a) for a in e["args"]], "named": {}}
+                return {"op": n.rsplit("::", 1)[-1], "args": [tree(F, a, env, depth) for a in e["args"]], "named": {}}
             if n.startswith("compiler::card::Card::"):
                 g = F.fn(n, required=False)
-                args = [tree(F, a) for a in e["args"]]
+                args = [tree(F, a, env, depth) for a in e["args"]]
                 named = {}
                 if g is not None and g.hir and len(g.hir.get("params", [])) == len(args):
                     for p, a in zip(g.hir["params"], args):
@@ -91,7 +115,8 @@ def tree(F, e):
                             named[p["name"]] = a
                 return {"op": n.rsplit("::", 1)[-1], "args": args, "named": named}
             if n.startswith("stdlib::"):
-                return {"op": "?helper", "path": n}
+                t = _inline(F, F.fn(n, required=False), [tree(F, a, env, depth) for a in e["args"]], depth)
+                return t if t is not None else {"op": "?helper", "path": n}
         return {"op": "?call:" + (names[0] if names else "?")}
     return {"op": "?" + str(k)}
 
